@@ -60,6 +60,30 @@ def cut_points(g):
     return sorted(p for p in pts if p >= max(g.start - 1, 0))
 
 
+def cutsteps_cases(rng):
+    """cuts that drop two or more index entries while an earlier one is kept, with record sizes for which one offset
+    step fits a 2-byte varint and two steps need 3 bytes (frames of 64..127 bytes, 128 records a step): the number of
+    index bytes given back is the sum of the steps' own widths; re-appends, reopen, appends after the reopen"""
+    cases = []
+    for (n, sz) in [(400, 88), (530, 100), (400, 60)]:
+        for koff in (129, 200, 257):
+            for resz in ("none", "shorter", "longer"):
+                g = G(rng, start=rng.choice([1, 1000]), pre=0)
+                g.w(sz, n, bump=0.02)
+                g.strip(g.start + koff)
+                g.ops += ["last", "state"]
+                if resz == "shorter":
+                    g.w(5, 135, bump=0.02)
+                elif resz == "longer":
+                    g.w(300, 135, bump=0.02)
+                g.check(False)
+                g.check(True)
+                g.w(sz, 3)
+                g.check(True)
+                cases.append(Case("cutsteps-n%d-%d-k%d-%s" % (n, sz, koff, resz), g.ops, True, "boundary"))
+    return cases
+
+
 def gen_truncation(rng, tier):
     """C03: every kind of cut, followed by re-appends that are shorter / equal / longer, then reopen"""
     cases = []
@@ -93,6 +117,7 @@ def gen_truncation(rng, tier):
                     g.check(False)
                     g.check(True)
                     cases.append(Case("cut-n%d-%s-k%d-%s-%d" % (n, mode, k - g.start, resz, reopen_first), g.ops, True, "boundary"))
+    cases += cutsteps_cases(rng)
     # random histories with several truncations
     for i in range(400 if big else 40):
         g = G(rng, start=rng.choice([1, 1, 7, 500]), pre=rng.choice([0, 2]))
@@ -175,6 +200,8 @@ def gen_append(rng, tier):
             g.ops.append("read %d %d" % (g.start + 255, g.start + 258))
             g.check(True)
             cases.append(Case("steps-%s-%d-s%d" % (mode, n, start), g.ops, True, "boundary"))
+    # conflict truncations over several index entries (C02: what was acknowledged and not removed survives the reopen)
+    cases += cutsteps_cases(rng)
     # random histories without truncation (appends, rejected appends, reads, reopen with split-off)
     for i in range(300 if big else 40):
         g = G(rng, start=rng.choice([1, 1, 64, 9000]), pre=rng.choice([0, 5]))
